@@ -16,7 +16,8 @@ from rules.utilfn import r04_9
 from rules.utilfn import r16_6
 from rules.utilfn import r04_10
 from rules.utilfn import r03_7
-RULES = [('R05.8', r05_8), ('R05.4', r05_4), ('R05.3', r05_3), ('R04.2', r04_2), ('R04.1', r04_1), ('R13.5', c13.r13_5), ('R16.2', r16_2), ('R16.3', r16_3), ('R16.4', r03_2), ('R01.1', r01_1), ('R04.4', r04_4), ('R04.5w', r04_5_writer), ('R04.5r', r04_5_reader), ('R04.5i', r04_5_iter), ('R04.5d', r04_5_dfa), ('R05.5', r05_5), ('R06.4', r06_4), ('R05.9', r05_9), ('R04.7', r04_7), ('R04.9', r04_9), ('R16.6', r16_6), ('R04.10', r04_10), ('R03.7', r03_7)]
+from rules.utilfn import r04_11
+RULES = [('R05.8', r05_8), ('R05.4', r05_4), ('R05.3', r05_3), ('R04.2', r04_2), ('R04.1', r04_1), ('R13.5', c13.r13_5), ('R16.2', r16_2), ('R16.3', r16_3), ('R16.4', r03_2), ('R01.1', r01_1), ('R04.4', r04_4), ('R04.5w', r04_5_writer), ('R04.5r', r04_5_reader), ('R04.5i', r04_5_iter), ('R04.5d', r04_5_dfa), ('R05.5', r05_5), ('R06.4', r06_4), ('R05.9', r05_9), ('R04.7', r04_7), ('R04.9', r04_9), ('R16.6', r16_6), ('R04.10', r04_10), ('R03.7', r03_7), ('R04.11', r04_11)]
 EXPLANATION = """R04.2 predicate tables: with the layout relation of R16.2 they give 'dead and match states are special; a special state that is
 neither dead nor match is a start state'. R04.1 forwarding impls. R13.5 start_state fails exactly for the unsupported anchoring mode
 (NFAs never; DFA iff the selected start id is DEAD, which the builder stores into exactly the unsupported one). R16.2 the special-id
